@@ -9,14 +9,14 @@ assignment, R8 no dead option.
 from __future__ import annotations
 
 import ast
-from typing import List, Optional
+from typing import Dict, List, Optional, Tuple
 
 from fsa.cfg import CFG, raised_class
 from fsa.flow import LocalFlow, PARAM, dominators, must_pass, names_loaded
 from fsa.match import dotted, is_const, is_self_call, kwarg, dict_slot, has_star_kwargs, pred_call_attr, pred_raise, pred_series_store
 from fsa.source import AnchorMissing, Unsupported, iter_own_nodes, stmt_key, text
 from rules import c02
-from rules.solver_common import SolverShape, check_convergence, fsic_hierarchy, series_stores
+from rules.solver_common import names_bound_of, SolverShape, check_convergence, fsic_hierarchy, series_stores
 
 Q = 'fsic.core.linkers.BaseLinker.solve_t'
 QE = 'fsic.core.linkers.BaseLinker.evaluate_t'
@@ -26,22 +26,63 @@ OPTIONS = ['min_iter', 'max_iter', 'tol', 'offset', 'failures', 'errors', 'catch
 SUBMODEL_LOOKUPS = ("self.__dict__['submodels']", 'self.submodels')
 
 
+class Selection:
+    """The selection of submodels a linker method works on: the value `list(<all submodels>.keys()) if submodels is None else
+    submodels`, however it is produced (an `if` that rebinds the parameter, a conditional expression, a helper method that
+    returns either) - decided on the gated value of an expression at the place it is used."""
+
+    def __init__(self, R, q: str) -> None:
+        from rules.common import Fn
+        self.f = Fn(R, q)
+        self.se = self.f.symexec(methods=True)
+
+    def value(self, node: ast.AST, e: ast.AST) -> ast.AST:
+        from fsa.gated import canon
+        from rules.c03 import _stmt_of
+        return canon(self.se.value(_stmt_of(self.f.fi.node, self.se, node), e))
+
+    @staticmethod
+    def is_sel_value(v: ast.AST) -> bool:
+        if not (isinstance(v, ast.IfExp) and text(v.test) == 'submodels is None' and text(v.orelse) == 'submodels'):
+            return False
+        b = v.body
+        if isinstance(b, ast.Call) and dotted(b.func) == 'list' and len(b.args) == 1:
+            inner = b.args[0]
+            if isinstance(inner, ast.Call) and isinstance(inner.func, ast.Attribute) and inner.func.attr == 'keys':
+                inner = inner.func.value
+            return text(inner) in SUBMODEL_LOOKUPS
+        return False
+
+    def is_selection(self, node: ast.AST, e: ast.AST) -> bool:
+        """Does `e`, evaluated where `node` stands, hold the selection?"""
+        try:
+            return self.is_sel_value(self.value(node, e))
+        except Unsupported:
+            return False
+
+    def describe(self, node: ast.AST, e: ast.AST) -> str:
+        try:
+            return text(self.value(node, e))[:80]
+        except Unsupported:
+            return text(e)
+
+
+_SEL: Dict[Tuple[int, str], Selection] = {}
+
+
+def selection_of(R, q: str) -> Selection:
+    k = (id(R), q)
+    if k not in _SEL:
+        _SEL[k] = Selection(R, q)
+    return _SEL[k]
+
+
 def _selection_default_ok(fi, cfg, lf, R, q) -> None:
-    """`if submodels is None: submodels = list(self.<submodels>.keys())`"""
-    ok = False
-    for n in cfg.nodes:
-        if n.kind == 'test' and text(n.ast) == 'submodels is None':
-            for (b, lab) in n.succ:
-                if lab == 'T':
-                    a = cfg.nodes[b].ast
-                    if isinstance(a, ast.Assign) and text(a.targets[0]) == 'submodels':
-                        v = a.value
-                        if isinstance(v, ast.Call) and dotted(v.func) == 'list' and len(v.args) == 1:
-                            inner = v.args[0]
-                            if isinstance(inner, ast.Call) and isinstance(inner.func, ast.Attribute) and inner.func.attr == 'keys':
-                                inner = inner.func.value
-                            if text(inner) in SUBMODEL_LOOKUPS:
-                                ok = True
+    """Somewhere the method reads the selection: `None` stands for all submodels in insertion order, anything else for itself."""
+    sel = selection_of(R, q)
+    uses = [(n, x) for n in ast.walk(sel.f.fi.node) if isinstance(n, ast.stmt) and not isinstance(n, (ast.FunctionDef, ast.ClassDef))
+            for x in ([n.iter] if isinstance(n, ast.For) else []) + [k.value for c in ast.walk(n) if isinstance(c, ast.Call) for k in c.keywords if k.arg == 'submodels']]
+    ok = any(sel.is_selection(n, x) for (n, x) in uses)
     R.check(ok, q, 'selection-default', 'default selection = all submodels in insertion order',
             'no `if submodels is None: submodels = list(<all submodels>.keys())` default', where=fi.where)
 
@@ -99,9 +140,11 @@ def r2_one_pass_per_submodel(R) -> None:
     if not R.expect(QE, len(loops), 1, 'loop over the selection'):
         return
     lp = loops[0]
-    R.check(text(lp.ast.iter) == 'submodels' and isinstance(lp.ast.target, ast.Name), QE, 'iterates-selection:' + text(lp.ast.iter),
+    sel = selection_of(R, QE)
+    lp_ast = [x for x in ast.walk(sel.f.fi.node) if isinstance(x, ast.For)][0]
+    R.check(sel.is_selection(lp_ast, lp_ast.iter) and isinstance(lp.ast.target, ast.Name), QE, 'iterates-selection:' + text(lp.ast.iter),
             'evaluate_t iterates the selection in the order given',
-            f'evaluate_t iterates `{text(lp.ast.iter)}`, not the selection `submodels`', where=f'{fi.module.relpath}:{lp.lineno}')
+            f'evaluate_t iterates `{sel.describe(lp_ast, lp_ast.iter)}`, not the selection `submodels`', where=f'{fi.module.relpath}:{lp.lineno}')
     var = lp.ast.target.id if isinstance(lp.ast.target, ast.Name) else '?'
     # submodel = <lookup>[name]
     evals = []
@@ -219,8 +262,29 @@ def r3_convergence(R, sh: SolverShape) -> None:
             return text(target.elts[0])
         return text(target)
 
+    def restricted_local(it: ast.AST) -> bool:
+        """An iteration over a local of the enclosing method that was built from the selected submodels only:
+        `{k: m for k, m in <all>.items() if k in submodels}` / `{k: <all>[k] for k in submodels}`."""
+        if isinstance(it, ast.Call) and isinstance(it.func, ast.Attribute) and it.func.attr in ('items', 'keys', 'values') and not it.args:
+            it = it.func.value
+        if not isinstance(it, ast.Name) or it.id not in sh.lf.locals:
+            return False
+        ds = [d for d in sh.cfg.nodes if d.kind == 'stmt' and isinstance(d.ast, (ast.Assign, ast.AnnAssign)) and it.id in names_bound_of(d)]
+        if len(ds) != 1 or not isinstance(ds[0].ast.value, (ast.DictComp, ast.ListComp)) or len(ds[0].ast.value.generators) != 1:
+            return False
+        if any(isinstance(x, ast.Name) and x.id == it.id and isinstance(x.ctx, (ast.Store, ast.Del)) for d in sh.cfg.nodes if d.ast is not None and d is not ds[0]
+               for x in ast.walk(d.ast)) or it.id in {x.value.id for x in ast.walk(sh.fi.node) if isinstance(x, ast.Subscript) and isinstance(x.ctx, (ast.Store, ast.Del)) and isinstance(x.value, ast.Name)}:
+            return False
+        g_ = ds[0].ast.value.generators[0]
+        if text(g_.iter) == 'submodels':
+            return True
+        return over_all(g_.iter) and any(in_selection(c, keyvar_of(g_.target, g_.iter)) for c in g_.ifs)
+
     found = unfiltered = 0
     for n in ast.walk(g.node):
+        if isinstance(n, (ast.For, ast.comprehension)) and restricted_local(n.iter):
+            found += 1
+            continue
         if isinstance(n, ast.For):
             if text(n.iter) == 'submodels':
                 found += 1
